@@ -34,6 +34,20 @@ CLAIMED["C17"] = (
     "DESIGN.md §5 C17",
 )
 
+CLAIMED["C14"] = (
+    "Kernel-checked refinement: the span attributes of any table reachable from a new table by ANY sequence of merges and "
+    "splits (accepted or refused) are the rendering of a set of pairwise disjoint rectangles inside a grid of constant "
+    "dimensions (run_inv); corollaries: is_merge_origin <-> top-left of a region with spans = its size, is_spanned <-> "
+    "other cell of a region, merge refused <-> overlap with a region, refused op = identity, split removes exactly its "
+    "region and restores plain cells; new-table widths/heights sum to the request for every count and total; the merge's "
+    "paragraph migration equals reading-order concatenation of the non-empty cells.  Tied to the code by exact "
+    "correspondence on the property's bounded-exhaustive space (all corner-pair orientations) plus seeded larger tables with text.",
+    "Trusted: paragraphs abstracted to their text; grid dimension constancy is structural in the model and checked on the real "
+    "a:tc counts; frame-size notification is correspondence + direct oracle (definitional in the model).",
+    "Lean 4 proof (refinement to disjoint rectangle sets, induction over op sequences) + bounded-exhaustive correspondence",
+    "DESIGN.md §5 C14",
+)
+
 NOT_YET = {}
 
 
